@@ -176,8 +176,11 @@ def case_result(case):
         return core.ood("no-degrees-of-freedom")
     scheme, result, warns = run_optimize(spec)
     vals = {p.label: float(p.value) for p in result.optimized_parameters.all()}
-    ref = S.reference(spec, vals=vals)
-    if ref["cond"] > 1e8:
+    try:
+        ref = S.reference(spec, vals=vals)
+    except np.linalg.LinAlgError:
+        return core.ood("fit-diverged-reference-not-evaluable")
+    if not np.isfinite(ref["cond"]) or ref["cond"] > 1e8:
         return core.ood("ill-conditioned")
     tol = S.tolerance(ref, 2.0)
     vs = []
